@@ -160,9 +160,16 @@ func MustCross(fn *ssa.Function, sat func(Edge) bool, kill func(*ssa.BasicBlock)
 					if s != b {
 						continue
 					}
-					if !(out || esat(Edge{From: p, Succ: i})) {
-						v = false
+					if out || esat(Edge{From: p, Succ: i}) {
+						continue
 					}
+					// the branch condition is a merge of conditions computed on the way in
+					// (m := a && b; if !m {…}): which operand decided depends on the edge p was entered
+					// by, so the test is made per incoming edge
+					if (kill == nil || !kill(p)) && phiBranch(p, i, in, esat, sat, kill) {
+						continue
+					}
+					v = false
 				}
 			}
 			if v != in[b] {
@@ -172,6 +179,72 @@ func MustCross(fn *ssa.Function, sat func(Edge) bool, kill func(*ssa.BasicBlock)
 		}
 	}
 	return in
+}
+
+// phiBranch: block p ends in `if φ` with φ a boolean phi of p. Taking successor i, every way into p either already
+// crossed a satisfying edge, or is infeasible for this branch (the operand on that way is the opposite constant), or
+// its operand, as the fact it establishes on this branch, satisfies sat.
+func phiBranch(p *ssa.BasicBlock, i int, in map[*ssa.BasicBlock]bool, esat func(Edge) bool, sat func(Edge) bool, kill func(*ssa.BasicBlock) bool) bool {
+	if len(p.Instrs) == 0 || len(p.Succs) != 2 {
+		return false
+	}
+	ifi, ok := p.Instrs[len(p.Instrs)-1].(*ssa.If)
+	if !ok {
+		return false
+	}
+	cond := ifi.Cond
+	pos := i == 0
+	for {
+		u, ok := cond.(*ssa.UnOp)
+		if !ok || u.Op != token.NOT {
+			break
+		}
+		cond = u.X
+		pos = !pos
+	}
+	ph, ok := cond.(*ssa.Phi)
+	if !ok || ph.Block() != p || len(ph.Edges) != len(p.Preds) {
+		return false
+	}
+	for j, q := range p.Preds {
+		if q == p {
+			return false
+		}
+		outq := in[q]
+		if kill != nil && kill(q) {
+			outq = false
+		}
+		crossed := outq
+		for k, s := range q.Succs {
+			if s == p && esat(Edge{From: q, Succ: k}) {
+				crossed = true
+			}
+		}
+		if crossed {
+			continue
+		}
+		op := ph.Edges[j]
+		if c, isC := op.(*ssa.Const); isC && c.Value != nil && c.Value.Kind() == constant.Bool {
+			if constant.BoolVal(c.Value) != pos {
+				continue // this way in cannot take this branch
+			}
+			return false
+		}
+		f := Fact{Cond: op, Pos: pos}
+		// normalise a negated operand
+		for {
+			u, ok := f.Cond.(*ssa.UnOp)
+			if !ok || u.Op != token.NOT {
+				break
+			}
+			f.Cond = u.X
+			f.Pos = !f.Pos
+		}
+		if !sat(Edge{From: p, Succ: i, implied: &f}) {
+			return false
+		}
+	}
+	return true
 }
 
 // GuardedBy reports whether every path to instruction at (the start of) block b
